@@ -43,8 +43,10 @@ func (s Stack) Apply(opt *Option, profile string) (string, error) {
 		return "", fmt.Errorf("no profile to stack")
 	}
 	t := opt.ArgList[0]
+	clean := regCleanStakedRules
 	if t != "X" {
-		regCleanStakedRules = slices.Insert(regCleanStakedRules, 0,
+		// Local copy: the package-level list must not keep the X rule for later directives
+		clean = slices.Insert(slices.Clone(regCleanStakedRules), 0,
 			util.ToRegexRepl([]string{
 				`(?m)^.*(|P|p)(|U|u)(|i)x,.*$`, ``, // Remove X transition rules
 			})...,
@@ -64,7 +66,7 @@ func (s Stack) Apply(opt *Option, profile string) (string, error) {
 			return "", fmt.Errorf("no profile found in %s", name)
 		}
 		stackedRules := m[1]
-		stackedRules = regCleanStakedRules.Replace(stackedRules)
+		stackedRules = clean.Replace(stackedRules)
 		res += "  # Stacked profile: " + name + "\n" + stackedRules + "\n"
 	}
 
